@@ -44,10 +44,14 @@ static void spec_step(int site) {
     /* my write to detach_state (the value it replaced is the one that was there at the instant of the write: l_ds) */
     if (!role_detacher) VASSERT(l_ds != FIBER_DETACH_DETACHED, "G: C04 DETACHED is final: a joiner's or the finisher's write never replaces it (joining a detached fiber fails - also when the detach lands between my look at the state and my write)");
     if (!role_detacher && !role_finisher && l_ds == FIBER_DETACH_WAIT_FOR_JOINER && *(int*)&T->detach_state == FIBER_DETACH_WAIT_TO_JOIN) G.claimed = 1;
+    if (role_finisher) VASSERT((l_ds == FIBER_DETACH_NONE && *(int*)&T->detach_state == FIBER_DETACH_WAIT_FOR_JOINER) || (l_ds == FIBER_DETACH_WAIT_TO_JOIN && *(int*)&T->detach_state == FIBER_DETACH_JOINED),
+                               "G: C04 the finisher announces WAIT_FOR_JOINER only when nobody is parked (it then parks itself); with a joiner parked it announces JOINED, which no join, tryjoin or detach acts on (nobody can mistake the parked joiner for the finished fiber)");
+    if (!role_finisher && !role_detacher) VASSERT(*(int*)&T->detach_state == FIBER_DETACH_WAIT_TO_JOIN && (l_ds == FIBER_DETACH_NONE || l_ds == FIBER_DETACH_WAIT_FOR_JOINER),
+                               "G: C04 a joiner moves the state only from NONE (it parks) or from WAIT_FOR_JOINER (it takes the parked finished fiber), to WAIT_TO_JOIN");
     my_exchange_done = 1;
   }
 }
-static int ds_ok(int d) { return d == FIBER_DETACH_NONE || d == FIBER_DETACH_WAIT_FOR_JOINER || d == FIBER_DETACH_WAIT_TO_JOIN || d == FIBER_DETACH_DETACHED; }
+static int ds_ok(int d) { return d == FIBER_DETACH_NONE || d == FIBER_DETACH_WAIT_FOR_JOINER || d == FIBER_DETACH_WAIT_TO_JOIN || d == FIBER_DETACH_DETACHED || d == FIBER_DETACH_JOINED; }
 #define DS (*(int*)&T->detach_state)
 /* interference: the other parties act on T (only before I have been told, by my own exchange, what to do) */
 #define MB_EMPTY 0
@@ -60,23 +64,25 @@ static void spec_env(int site) {
   int d0 = DS;
   if (!role_finisher) {
     unsigned k = verif_pick(4);
-    if (k == 0 && !G.fin_exchanged && d0 != FIBER_DETACH_WAIT_FOR_JOINER) {
-      /* the finisher: stores the result, then its single exchange */
-      G.fin = 1; G.fin_exchanged = 1; *(void**)&T->result = G.R; DS = FIBER_DETACH_WAIT_FOR_JOINER;
-      if (d0 == FIBER_DETACH_NONE) G.mailbox = MB_FINISHER;                       /* it parks as the mailbox */
-      else if (d0 == FIBER_DETACH_WAIT_TO_JOIN && G.mailbox == MB_OTHER) { G.mailbox = MB_EMPTY; G.other_joined = 1; }  /* it hands R to the parked joiner */
+    if (k == 0 && !G.fin_exchanged && d0 != FIBER_DETACH_WAIT_FOR_JOINER && d0 != FIBER_DETACH_DETACHED && d0 != FIBER_DETACH_JOINED) {
+      /* the finisher: stores the result, then its single transition (never away from DETACHED); with a joiner parked it announces JOINED and
+         takes that joiner out of the mailbox in a SECOND step */
+      G.fin = 1; G.fin_exchanged = 1; *(void**)&T->result = G.R;
+      if (d0 == FIBER_DETACH_NONE) { DS = FIBER_DETACH_WAIT_FOR_JOINER; G.mailbox = MB_FINISHER; }                       /* it parks as the mailbox */
+      else { DS = FIBER_DETACH_JOINED; if (G.mailbox == MB_OTHER && verif_bool()) { G.mailbox = MB_EMPTY; G.other_joined = 1; } }
     } else if (k == 1) {
-      /* another joiner / try-joiner exchanges */
-      DS = FIBER_DETACH_WAIT_TO_JOIN;
-      if (d0 == FIBER_DETACH_NONE) G.mailbox = MB_OTHER;
-      else if (d0 == FIBER_DETACH_WAIT_FOR_JOINER && G.mailbox == MB_FINISHER) { G.mailbox = MB_EMPTY; G.other_joined = 1; }
+      /* another joiner / try-joiner: moves the state only from NONE (parks) or WAIT_FOR_JOINER (takes the finished fiber) */
+      if (d0 == FIBER_DETACH_NONE) { DS = FIBER_DETACH_WAIT_TO_JOIN; G.mailbox = MB_OTHER; }
+      else if (d0 == FIBER_DETACH_WAIT_FOR_JOINER && G.mailbox == MB_FINISHER) { DS = FIBER_DETACH_WAIT_TO_JOIN; G.mailbox = MB_EMPTY; G.other_joined = 1; }
+    } else if (k == 3 && d0 == FIBER_DETACH_JOINED && G.mailbox == MB_OTHER) {
+      G.mailbox = MB_EMPTY; G.other_joined = 1;   /* the finisher takes the parked joiner out and hands it R */
     } else if (k == 2) {
       DS = FIBER_DETACH_DETACHED;
       if (d0 == FIBER_DETACH_WAIT_FOR_JOINER || d0 == FIBER_DETACH_WAIT_TO_JOIN) G.mailbox = MB_EMPTY;   /* detach takes the parked party out */
     }
   } else {
     unsigned k = verif_pick(3);
-    if (k == 0) { DS = FIBER_DETACH_WAIT_TO_JOIN; if (d0 == FIBER_DETACH_NONE) G.mailbox = MB_ME; }   /* a joiner (ME in this harness) announces itself and parks */
+    if (k == 0) { if (d0 == FIBER_DETACH_NONE) { DS = FIBER_DETACH_WAIT_TO_JOIN; G.mailbox = MB_ME; } }   /* a joiner (ME in this harness) announces itself (only from NONE) and parks */
     else if (k == 1) { DS = FIBER_DETACH_DETACHED; }
   }
 }
@@ -139,14 +145,16 @@ static void init(int finisher) {
   G.R = (void*)verif_u64(); VASSUME(G.R != C04_DETACH_MARKER); /* a user's return value cannot be the library's private marker */ G.parks = G.scheduled = G.sched_bad = G.yields = 0; G.woken_by_detach = 0; G.t_freed = 0; G.other_joined = 0; G.taken_out = 0;
   G.mailbox = MB_EMPTY; G.fin_exchanged = 0; G.claimed = 0;
   int d = verif_int(); VASSUME(ds_ok(d)); DS = d;
-  G.fin = (d == FIBER_DETACH_WAIT_FOR_JOINER) ? 1 : verif_bool();
+  G.fin = (d == FIBER_DETACH_WAIT_FOR_JOINER || d == FIBER_DETACH_JOINED) ? 1 : verif_bool();
   if (d == FIBER_DETACH_WAIT_FOR_JOINER) { G.fin_exchanged = 1; G.mailbox = MB_FINISHER; }
+  if (d == FIBER_DETACH_JOINED) { G.fin_exchanged = 1; if (verif_bool()) G.mailbox = MB_OTHER; else G.other_joined = 1; }   /* the finisher is handing over to a parked joiner (or has) */
   if (d == FIBER_DETACH_WAIT_TO_JOIN) G.mailbox = finisher ? MB_ME : MB_OTHER;   /* (WAIT_TO_JOIN with an empty mailbox = already joined and reclaimed: calling anything on it is a use after free by the caller) */
   if (finisher) G.fin_exchanged = 0;
-  *(void**)&T->result = (d == FIBER_DETACH_WAIT_FOR_JOINER) ? G.R : (void*)verif_u64();
+  *(void**)&T->result = (d == FIBER_DETACH_WAIT_FOR_JOINER || d == FIBER_DETACH_JOINED) ? G.R : (void*)verif_u64();
   *(fiber_t**)&T->join_info = 0; T->state = FIBER_STATE_WAITING;
   VM0.current_fiber = finisher ? T : &ME; VM0.scheduler = (fiber_scheduler_t*)&VM0;
   ME.state = finisher ? FIBER_STATE_WAITING : FIBER_STATE_RUNNING; *(void**)&ME.result = 0;
+  spec_snap();   /* (the step monitor compares against this: without it the first point would mistake the initial state for a write of mine) */
 }
 void h_join(void) {
   init(0); void* res = (void*)verif_u64();
@@ -176,7 +184,7 @@ void h_detach(void) {
   VCANARY("detach can return");
 }
 void h_mark_completed(void) {
-  init(1); G.fin = 1; VASSUME(DS != FIBER_DETACH_WAIT_FOR_JOINER);
+  init(1); G.fin = 1; VASSUME(DS != FIBER_DETACH_WAIT_FOR_JOINER && DS != FIBER_DETACH_JOINED); G.other_joined = 0;
   fiber_mark_completed(T, G.R);
   VASSERT(!G.sched_bad && G.parks + G.scheduled <= 1, "C04.finish: the finisher parks as the mailbox or wakes the waiting joiner, once");
   if (G.scheduled == 1) VASSERT(*(void**)&ME.result == G.R && ME.state == FIBER_STATE_READY, "C04.finish: the return value is written into the waiting joiner before it is woken");
